@@ -86,6 +86,17 @@ def _row_items(em, rng, col, opts, style):
       col += 1
       written += 1
       last_wrote = True
+      if rng.random() < 0.4 and col <= 29:
+        # two mid-row codes in a row (colour then italics, italics then colour, ...): the second one replaces / keeps
+        # attributes as CTA-608 prescribes (italics keeps the colour, a colour code turns italics off)
+        second = rng.choice([14, 15]) if rng.random() < 0.5 else rng.randrange(16)
+        em.code(U.w_midrow(second), allow_ch2=False)
+        em.features.add("midrow_pair")
+        col += 1
+        written += 1
+        if col <= 29:
+          em.text(rng.choice(LETTERS), rng.choice(LETTERS))
+          col += 2
     elif r < 0.80 and "special" in opts:
       em.code(U.w_special(rng.randrange(16)), allow_ch2=False)
       em.features.add("special")
